@@ -289,6 +289,55 @@ def e2e_case(arg):
     return text, fails
 
 
+LAYOUT_SEPS = ["", " ", "\n", "\t", "\r\n", "  \n", "\f"]
+
+
+def layout_case(arg):
+    """oracle 'layout' (the part of sheet_layout_roundtrip that is not proved): for every lineSeparator the text of a
+    sheet is lineSeparator.join(rule texts) and TOKENIZING it gives the token runs of the rule texts joined by the tokens
+    of the separator; re-parsing it gives the same rule kinds at the same places"""
+    seed, size = arg
+    import random
+    import css_parser
+    E = _e2e()
+    text = E.gen_sheet(random.Random(seed), size, E.TRIGGERS)   # only sheets whose rule texts are clean statements
+    out = []
+    try:
+        sheet = E._parse(text)
+        tv = lambda x: [(t[0], t[1]) for t in _tok1(x)]  # noqa
+        for ls in LAYOUT_SEPS:
+            css_parser.ser.prefs.useDefaults()
+            css_parser.ser.prefs.lineSeparator = ls
+            try:
+                whole = sheet.cssText.decode("utf-8")
+                texts = [r.cssText for r in sheet.cssRules]
+                texts = [t for t in texts if t]
+                if whole != ls.join(texts):
+                    out.append({"sep": ls, "what": "sheet text is not lineSeparator.join(rule texts)", "text": text})
+                    continue
+                want = []
+                for i, t in enumerate(texts):
+                    if i:
+                        want += tv(ls)
+                    want += tv(t)
+                got = tv(whole)
+                if got != want:
+                    k = next((i for i, (a, b) in enumerate(zip(got, want)) if a != b), min(len(got), len(want)))
+                    out.append({"sep": ls, "what": "tokens of the joined text are not the joined token runs",
+                                "text": text, "at": k, "got": got[k:k + 2], "want": want[k:k + 2]})
+                    continue
+                types2 = [r.type for r in E._parse(whole).cssRules]
+                types1 = [r.type for r in sheet.cssRules if r.cssText]
+                if types1 != types2:
+                    out.append({"sep": ls, "what": "re-parsed rule kinds differ", "text": text,
+                                "got": types2, "want": types1})
+            finally:
+                css_parser.ser.prefs.useDefaults()
+    except Exception as e:  # noqa
+        out.append({"sep": None, "what": "exception %s: %s" % (type(e).__name__, e), "text": text})
+    return out
+
+
 def e2e_text(text):
     E = _e2e()
     try:
@@ -658,6 +707,18 @@ def run(ctx):
     e2e_fail = sum(1 for t, f in e2e if f)
     report_e2e(ctx, groups, 90 if thorough else 30)
 
+    # ---- layout oracle (tokenization of the joined rule texts for every kind of lineSeparator)
+    largs = [(ctx.rng.randrange(1 << 60), 1 + (i % 6)) for i in range(1200 if thorough else 300)]
+    lay = ctx.pool_map(layout_case, largs, procs=6, chunksize=8)
+    lay_fail = [f for fs in lay for f in fs]
+    seen_lay = set()
+    for f in lay_fail:
+        key = (f["what"], f["sep"])
+        if key in seen_lay:
+            continue
+        seen_lay.add(key)
+        ctx.violation("layout: " + f["what"], dict(f, level="layout"), sig_text="sep=%r :: %s" % (f["sep"], f["what"]))
+
     # ---- known findings: re-run the stored witnesses
     for f in ctx.findings:
         if f.get("status") == "open":
@@ -703,6 +764,7 @@ def run(ctx):
         "string_oracle_failures_matching_known_findings": skipped_known,
         "e2e_sheets": len(e2e), "e2e_sheets_with_failures": e2e_fail, "e2e_failure_kinds": fam_count,
         "e2e_wall_s": round(e2e_wall, 1),
+        "layout_sheets": len(lay), "layout_separators": LAYOUT_SEPS, "layout_failures": len(lay_fail),
         "trusted_base": TRUSTED,
     }, assumptions=ASSUME, search=search)
 
